@@ -195,6 +195,8 @@ pub enum Replay
     C17{ case : Case },
     /* C10 conformance probe: fixed script, nothing to parametrise */
     Conformance,
+    /* C10 end-to-end differential: the scenario on RealSystem + sh vs. in the simulator */
+    ConformanceCase{ case : Case },
 }
 
 #[derive(Clone, Debug)]
@@ -852,6 +854,7 @@ pub fn run_replay(r : &Replay) -> Vec<(String, String)>
         Replay::Server{ case, requests } => server_engine::replay(case, requests),
         Replay::C17{ case } => c17_engine::replay(case),
         Replay::Conformance => conform_engine::replay(),
+        Replay::ConformanceCase{ case } => conform_engine::replay_case(case),
     }
 }
 
@@ -969,7 +972,8 @@ pub fn worker_main() -> i32
 
     if cfg.prop == "CONFORM"
     {
-        let found = conform_engine::run(&mut stats);
+        let mut found = conform_engine::run(&mut stats);
+        found.extend(conform_engine::run_differential(&mut stats, cfg.runs, cfg.seed));
         for f in found
         {
             let j = replay_to_json(&f).set("t", J::s("violation"));
